@@ -9,15 +9,15 @@ d=$(mktemp -d /tmp/lw-seed-XXXXXX); rmdir "$d"
 git -C /repo worktree add -q --detach "$d" HEAD || exit 3
 mkdir -p "$d/_seeded/x"; cp "$src/demo.py" "$d/_seeded/x/demo.py"
 cd "$d"
-timeout 600 /venv/bin/python _seeded/x/demo.py > /tmp/seed_demo_clean.log 2>&1; clean=$?
+timeout 600 /venv/bin/python _seeded/x/demo.py > $d.clean.log 2>&1; clean=$?
 if ! git apply "$src/patch.diff"; then echo "PATCH-FAILED"; cd /; git -C /repo worktree remove --force "$d"; exit 3; fi
-timeout 600 /venv/bin/python _seeded/x/demo.py > /tmp/seed_demo_mut.log 2>&1; mut=$?
+timeout 600 /venv/bin/python _seeded/x/demo.py > $d.mut.log 2>&1; mut=$?
 tests="skipped"
 if [ -z "$notests" ]; then
   tests=$(timeout 1200 /venv/bin/python -m pytest -q -p no:cacheprovider --timeout=900 -x 2>&1 | tail -1)
 fi
 cd /verif
-LABSIM_REPO="$d" ./check "$prop" quick ${runs:+--runs $runs} --no-selfcheck > /tmp/seed_check.log 2>&1; rc=$?
-grep -E "^VIOLATION|^  class|^KNOWN|^OK|^HARNESS|^runs=" /tmp/seed_check.log | head -12
-git -C /repo worktree remove --force "$d"
+LABSIM_REPO="$d" ./check "$prop" quick ${runs:+--runs $runs} --no-selfcheck > $d.check.log 2>&1; rc=$?
+grep -E "^VIOLATION|^  class|^KNOWN|^OK|^HARNESS|^runs=" $d.check.log | head -12
+git -C /repo worktree remove --force "$d"; rm -f "$d".clean.log "$d".mut.log; mv "$d".check.log /tmp/last_check_$(basename "$src").log
 echo "SUMMARY {\"demo_clean_exit\": $clean, \"demo_mutant_exit\": $mut, \"tests\": \"$tests\", \"check_exit\": $rc}"
